@@ -249,7 +249,9 @@ fn check_search_with(scale: f64, initial: f64, target: f64, method: StepSizeAdap
     // the search draws its momentum once
     spy.borrow_mut().gaussian_script.push_back(mom.to_vec());
     let mut rng = ChaCha8Rng::seed_from_u64(0);
-    let mut options = NutsOptions::default();
+    // the sampler's divergence threshold is the user's business, not the search's: the search has
+    // its own fixed limit (1000) for its trial steps, so a tight max_energy_error changes nothing
+    let mut options = NutsOptions { max_energy_error: if initial > 2.0 * scale { 50.0 } else { 1000.0 }, ..NutsOptions::default() };
     p.evaluations += 1;
     if let Err(e) = strat.init(&mut math, &mut options, &mut h, &pos, &mut rng) {
         p.violation(format!("C07/search-failed/{key}"), format!("{e}"), replay);
@@ -318,46 +320,57 @@ fn check_search_with(scale: f64, initial: f64, target: f64, method: StepSizeAdap
                 return;
             }
         }
-        (Some(a0), a_e) => {
-            if eps == initial && a_e.map(|a| (a > target) == (a0 > target)).unwrap_or(true) && (eps > 1e5 || eps < 1e-10 || true) {
-                // either the first doubling/halving already crossed, or a documented fall-back
+        (Some(a0), _) => {
+            // the search, re-enacted with one-step acceptances recomputed by the real leapfrog under
+            // the search's own limit of 1000: the trial steps are initial, then doubled (forward in
+            // time) while the acceptance is above the target / halved (backward in time) while it
+            // is below; a trial step that fails sends the search back to the initial step
+            let forward = a0 > target;
+            let acc_dir = |e: f64| one_step_accept(scale, &pos, &mom, e, !forward);
+            let mut e = initial;
+            let mut expected: Option<f64> = None;
+            let mut failed_trial: Option<f64> = None;
+            for _ in 0..100 {
+                match acc_dir(e) {
+                    None => {
+                        failed_trial = Some(e);
+                        break;
+                    }
+                    Some(a) => {
+                        if forward {
+                            if a <= target || e > 1e5 {
+                                expected = Some(e);
+                                break;
+                            }
+                            e *= 2.0;
+                        } else {
+                            if a >= target || e < 1e-10 {
+                                expected = Some(e);
+                                break;
+                            }
+                            e /= 2.0;
+                        }
+                    }
+                }
             }
-            if a0 > target {
-                // doubling: stops at the first step whose acceptance is <= target (or step > 1e5)
-                let crossed = a_e.map(|a| a <= target).unwrap_or(false);
-                let prev_ok = acc(eps / 2.0).map(|a| a > target).unwrap_or(false) || eps == initial;
-                if crossed && prev_ok {
-                    outcome = "doubling-bracket";
-                } else if eps > 1e5 || eps == initial {
-                    outcome = "doubling-fallback";
-                } else {
-                    p.violation(
-                        format!("C07/search-does-not-bracket-target/{key}"),
-                        format!("doubling from {initial} ended at {eps}: accept({eps})={a_e:?}, accept({})={:?}, target {target}", eps / 2.0, acc(eps / 2.0)),
-                        replay,
-                    );
-                    return;
-                }
-            } else {
-                // the halving trials are taken backward in time from the same state (the search
-                // uses one direction flag for "halve" and for the integration direction)
-                let acc_b = |e: f64| one_step_accept(scale, &pos, &mom, e, true);
-                let a_e = acc_b(eps);
-                let acc = acc_b;
-                let crossed = a_e.map(|a| a >= target).unwrap_or(false);
-                let prev_ok = acc(eps * 2.0).map(|a| a < target).unwrap_or(true) || eps == initial;
-                if crossed && prev_ok {
-                    outcome = "halving-bracket";
-                } else if eps < 1e-10 || eps == initial {
-                    outcome = "halving-fallback";
-                } else {
-                    p.violation(
-                        format!("C07/search-does-not-bracket-target/{key}"),
-                        format!("halving from {initial} ended at {eps}: accept({eps})={a_e:?}, accept({})={:?}, target {target}", eps * 2.0, acc(eps * 2.0)),
-                        replay,
-                    );
-                    return;
-                }
+            let want = expected.unwrap_or(initial);
+            outcome = match (expected, forward) {
+                (Some(_), true) => "doubling-bracket",
+                (Some(_), false) => "halving-bracket",
+                (None, true) => "doubling-fallback",
+                (None, false) => "halving-fallback",
+            };
+            if !mc_core::rel_close(eps, want, 1e-12, 0.0) {
+                p.violation(
+                    format!("C07/search-does-not-bracket-target/{key}"),
+                    format!(
+                        "{} from {initial} ended at {eps}; re-enacted with the one-step acceptances it must end at {want} ({})",
+                        if forward { "doubling" } else { "halving" },
+                        match failed_trial { Some(f) => format!("trial step {f} fails"), None => "no trial step fails".to_string() }
+                    ),
+                    replay,
+                );
+                return;
             }
         }
     }
@@ -430,7 +443,9 @@ pub fn run(tier: Tier, _replay: Option<String>) -> i32 {
         // absolute initial steps, and initial steps a little above the scale of the target (the
         // regime in which the search halves without the first trial step diverging)
         let scale = 10f64.powi(e);
-        for init in [1e-3, 0.1, 10.0, 1.7 * scale, 2.5 * scale, 6.0 * scale] {
+        // (the larger multiples give first trial steps whose energy error lies between a tight
+        // sampler threshold and the search's own limit)
+        for init in [1e-3, 0.1, 10.0, 1.7 * scale, 2.5 * scale, 6.0 * scale, 3.0 * scale, 3.5 * scale, 4.0 * scale, 4.5 * scale, 5.0 * scale, 8.0 * scale] {
             for target in [0.6, 0.8, 0.95] {
                 jobs.push(Job::Search(scale, init, target));
             }
